@@ -577,6 +577,30 @@ func (r *Request) SetBasicAuth(username, password string) {
 	r.Header.Set("Authorization", "Basic "+basicAuth(username, password))
 }
 
+// validToken reports whether s is a token as defined by RFC 7230 3.2.6.
+func validToken(s string) bool {
+	if s == "" {
+		return false
+	}
+	for i := 0; i < len(s); i++ {
+		if !isToken(rune(s[i])) {
+			return false
+		}
+	}
+	return true
+}
+
+// validFieldValue reports whether s can be a header field value
+// (RFC 7230 3.2: VCHAR, obs-text, SP and HTAB; no other control bytes).
+func validFieldValue(s string) bool {
+	for i := 0; i < len(s); i++ {
+		if c := s[i]; c < ' ' && c != '\t' || c == 0x7f {
+			return false
+		}
+	}
+	return true
+}
+
 // parseRequestLine parses "GET /foo HTTP/1.1" into its three parts.
 func parseRequestLine(line string) (method, requestURI, proto string, ok bool) {
 	s1 := strings.Index(line, " ")
@@ -635,6 +659,9 @@ func ReadRequest(b *bfe_bufio.Reader, maxUriBytes int) (req *Request, err error)
 	if !ok {
 		return nil, &badStringError{"malformed HTTP request", s}
 	}
+	if !validToken(req.Method) {
+		return nil, &badStringError{"invalid method", req.Method}
+	}
 	rawurl := req.RequestURI
 
 	if len(rawurl) > maxUriBytes {
@@ -675,6 +702,20 @@ func ReadRequest(b *bfe_bufio.Reader, maxUriBytes int) (req *Request, err error)
 	}
 	req.Header = Header(mimeHeader)
 	req.HeaderKeys = headerKeys
+
+	// RFC 7230 3.2: field names are tokens (in particular no white space
+	// before the colon, 3.2.4) and field values contain no control bytes.
+	// Anything else must be refused, not forwarded.
+	for k, vv := range req.Header {
+		if !validToken(k) {
+			return nil, &badStringError{"invalid header name", k}
+		}
+		for _, v := range vv {
+			if !validFieldValue(v) {
+				return nil, &badStringError{"invalid header value", v}
+			}
+		}
+	}
 
 	// RFC2616: Must treat
 	//	GET /index.html HTTP/1.1
